@@ -103,6 +103,16 @@ def cases(draw):
                  "loops": draw(st.sampled_from([2, -1])), "cache": True},
                 {"op": "it_nexts", "i": -1, "k": n + draw(st.integers(0, 2))},
                 {"op": "it_ctl", "i": -1}, {"op": "it_next", "i": -1}, {"op": "it_nexts", "i": -1, "k": n}]
+    if animated_kind(kind) and kind != "stream" and draw(st.integers(0, 2)) == 0:
+        # exactly up to the last frame of the last loop (the iterator is not exhausted yet), then back and on
+        lp = draw(st.sampled_from([1, 2]))
+        ops += [{"op": "new_iter", "pad": ["exact", 0, 0, 0, 0], "fill": " ", "ctor": "init", "loops": lp,
+                 "cache": draw(st.booleans())},
+                {"op": "it_nexts", "i": -1, "k": n * lp},
+                {"op": "it_seek", "i": -1, "off": draw(st.integers(0, 1)), "whence": 0},
+                {"op": "it_ctl", "i": -1}, {"op": "it_next", "i": -1}]
+    if draw(st.integers(0, 2)) == 0:
+        ops.insert(draw(st.integers(0, len(ops))), {"op": "bad_ctor", "how": draw(st.sampled_from(["loops0", "cache0", "cache_neg", "nonanimated"]))})
     c["ops"] = ops
     return c
 
@@ -199,6 +209,30 @@ def check_history(case, rec):
             one_shot(o, lambda: r.render(None, padding(o)), "render")
         elif k == "str":
             one_shot(o, lambda: str(r), "str")
+        elif k == "bad_ctor":
+            # a rejected iterator construction: whatever render data it created must be finalized when it has failed
+            n0 = len(r.datas)
+            how = o["how"]
+            try:
+                if how == "nonanimated" or not animated:
+                    if animated:
+                        continue
+                    iter(r)
+                elif how == "loops0":
+                    RenderIterator(r, None, padding({"pad": ["exact", 0, 0, 0, 0], "fill": " "}), 0, True)
+                elif how == "cache0":
+                    RenderIterator(r, None, padding({"pad": ["exact", 0, 0, 0, 0], "fill": " "}), 1, 0)
+                else:
+                    RenderIterator(r, None, padding({"pad": ["exact", 0, 0, 0, 0], "fill": " "}), 1, -3)
+                fail(f"invalid iterator construction ({how}) accepted", {"kind": "ctor_accept"})
+            except Violation:
+                raise
+            except Exception:
+                pass
+            for idx in range(n0, len(r.datas)):
+                expect_final.add(idx)
+            flags.add("bad_ctor")
+            trace.append(("bad_ctor", how))
         elif k == "bad_args" and animated and o.get("keep"):
             # a failed iterator construction from caller-owned data (finalize=False): the data stays the caller's,
             # un-finalized, and the caller can finalize it (once) afterwards
